@@ -558,6 +558,12 @@ func (x *Exec) sortTarget(e ast.Expr) ast.Expr {
 			return x.sortTarget(call.Args[0])
 		}
 	}
+	// s[:] of a slice s denotes the same elements: sorting it sorts s
+	if se, ok := e.(*ast.SliceExpr); ok && se.Low == nil && se.High == nil && se.Max == nil {
+		if t := x.typeOf(se.X); t != nil && isSliceType(t) {
+			return x.sortTarget(se.X)
+		}
+	}
 	return e
 }
 
